@@ -109,6 +109,15 @@ def gen(args):
                 sqT = periodic_pairwise_euclidean_distances(Xf, None, squared=True, cell_length=cellarg)
                 c["sq"], c["sqT"] = snap(sq, s * s), snap(sqT, s * s)
                 c["dq"] = [[int(round(v * s * 1024)) for v in row] for row in d]
+            elif kind == "free" and (t + nx + ny) % 3 == 0:
+                # without a cell the function documents "{array-like, sparse matrix}" input (it reduces to sklearn's distance)
+                import scipy.sparse as sp
+                Xs_, Ys_ = sp.csr_matrix(Xf), sp.csr_matrix(Yf)
+                sq = periodic_pairwise_euclidean_distances(Xs_, Ys_, squared=True)
+                d = periodic_pairwise_euclidean_distances(Xs_, Ys_)
+                sqT = periodic_pairwise_euclidean_distances(Ys_, Xs_, squared=True)
+                c["sq"], c["sqT"] = snap(sq, s * s), snap(sqT, s * s)
+                c["dq"] = [[int(round(v * s * 1024)) for v in row] for row in d]
             else:
                 sq = periodic_pairwise_euclidean_distances(Xf, Yf, squared=True, cell_length=cellarg)
                 d = periodic_pairwise_euclidean_distances(Xf, Yf, squared=False, cell_length=cellarg)
